@@ -41,7 +41,7 @@ ASSUMPTIONS = [
 
 
 def plan(tier: str) -> dict[str, Any]:
-    n = 500 if tier == "quick" else 60000
+    n = 800 if tier == "quick" else 150000
     return {"cases": n, "budget_s": 90 if tier == "quick" else 1500, "min_per_shard": 20}
 
 
